@@ -17,6 +17,7 @@ handle state machine `BlocV.CApi.step` (driver command `seq`). Both print one to
            recorded finding that the case is entitled to (it used the text / program of that finding), else VIOLATION.
 Memory reclamation is NOT modelled in Lean: leaks are LeakSanitizer's verdict only.
 """
+import itertools
 import os
 import re
 import subprocess
@@ -940,6 +941,26 @@ class C15(Check):
                 "vdump,2", "vdump,4", "acc,2,u", "acc,4,i", "drop,0,8", "vdump,8", "tabitem,8,0,9", "tupitem,8,1,10", "tupitem,9,0,11",
                 "vfree,8", "vdump,9", "rst,0", "exec,0", "vdump,1", "cpurge,0", "vdump,2", "xfree,0", "cfree,0"]
             C.append(self.mk("libacc_%d" % i, ops))
+        # a library-owned variable value changed through bloc_assign_* stays a variable: scripts that merely read it
+        # (as an operand, twice) must neither change nor retype it
+        rd = [("let", "S2", ("bin", "ADD", ("var", "S1"), S("!"))), ("let", "S3", ("bin", "ADD", ("var", "S1"), S("?"))),
+              ("return", ("bin", "ADD", ("var", "S1"), ("var", "S1")))]
+        for i, (init, asg) in enumerate(itertools.product(("vlit,0,%s" % hx("hello"), "vlit,0,-", "vnull,0,4"),
+                                                           ("alit,1,%s" % hx("new"), "alit,1,-", "alit,1,%s" % hx(""), "anull,1"))):
+            C.append(self.mk("asgread_%d" % i, ["cnew,0", "reg,0,0,%s,4,0" % hx("S1"), init, "store,0,0,0", "load,0,0,1", asg, "vdump,1",
+                                                X(0, 0, rd), "exec,0", "drop,0,2", "vdump,2", "load,0,0,3", "vdump,3", "exec,0", "drop,0,4", "vdump,4",
+                                                "load,0,0,5", "vdump,5", "out,0"]))
+        # a declaration that fails in its body leaves no function behind, also right after a successful redefinition
+        # of another function (createOrReplace / rollback bookkeeping)
+        gdecl = [k for k, t in enumerate(badp) if t.startswith("function g9(")]
+        gcall = [k for k, t in enumerate(badp) if t == "q9 = g9(1);"]
+        if gdecl and gcall:
+            f1 = [("func", "F9", ["I7"], "i", [("return", ("bin", "ADD", ("var", "I7"), I(1)))], [])]
+            f2 = [("func", "F9", ["I7"], "i", [("return", ("bin", "ADD", ("var", "I7"), I(2)))], [])]
+            use = [("return", ("fcall", "F9", [I(40)]))]
+            for i, pre in enumerate(([], [X(0, 0, f1), "xfree,0"], [X(0, 0, f1), "xfree,0", X(0, 0, f2), "xfree,0"])):
+                C.append(self.mk("fdecl_%d" % i, ["cnew,0"] + pre + [XBAD(0, 1, gdecl[0], badp[gdecl[0]], 1), XBAD(0, 1, gcall[0], badp[gcall[0]], 1)]
+                                 + ([X(0, 2, use), "exec,2", "drop,0,0", "vdump,0"] if pre else []) + ["out,0"], {"leaks": {KF_L_ENV}}))
         # witnesses of the recorded findings
         C.append(self.mk("kf_lit", ["cnew,0", "vnull,0,4", "acc,0,l", "accu,0,l"], {"kf": KF_LIT}))
         C.append(self.mk("kf_lit2", ["cnew,0", "vlit,0,-", "accu,0,l"], {"kf": KF_LIT}))
